@@ -11,7 +11,7 @@ import math
 from decimal import Decimal
 from functools import cmp_to_key
 from itertools import zip_longest
-from typing import Any, Optional
+from typing import Any, Optional, Union
 
 from collections.abc import Callable, Iterable, Iterator
 from elementpath.protocols import ElementProtocol
@@ -31,14 +31,22 @@ def deep_equal(seq1: Iterable[Any],
 
     etree_node_types = (EtreeElementNode, CommentNode, ProcessingInstructionNode)
 
-    def etree_deep_equal(e1: ElementProtocol, e2: ElementProtocol, tails: bool = False) -> bool:
+    def iter_content(elem: ElementProtocol) -> Iterator[Union[str, ElementProtocol]]:
+        # the text nodes and the element children: comments and processing instructions are ignored
+        if elem.text:
+            yield elem.text
+        for child in elem:
+            if not callable(child.tag):
+                yield child
+            if child.tail:
+                yield child.tail
+
+    def etree_deep_equal(e1: ElementProtocol, e2: ElementProtocol) -> bool:
         if cm.ne(e1.tag, e2.tag):
             return False
-        elif cm.ne(e1.text or '', e2.text or ''):
-            return False
-        elif tails and cm.ne(e1.tail or '', e2.tail or ''):
-            return False  # the tail of the compared nodes is a sibling text node
-        elif len(e1) != len(e2) or len(e1.attrib) != len(e2.attrib):
+        elif callable(e1.tag):
+            return cm.eq(e1.text or '', e2.text or '')  # comments or processing instructions
+        elif len(e1.attrib) != len(e2.attrib):
             return False
 
         try:
@@ -51,7 +59,17 @@ def deep_equal(seq1: Iterable[Any],
 
         if items1 != items2:
             return False
-        return all(etree_deep_equal(c1, c2, tails=True) for c1, c2 in zip(e1, e2))
+
+        # the tail of the compared nodes is a sibling text node
+        for c1, c2 in zip_longest(iter_content(e1), iter_content(e2)):
+            if c1 is None or c2 is None:
+                return False
+            elif isinstance(c1, str) or isinstance(c2, str):
+                if not isinstance(c1, str) or not isinstance(c2, str) or cm.ne(c1, c2):
+                    return False
+            elif not etree_deep_equal(c1, c2):
+                return False
+        return True
 
     if collation is None:
         collation = UNICODE_CODEPOINT_COLLATION
